@@ -568,3 +568,62 @@ def fn_const_instance(prog, o):
         if t['kind'] == 'fndef':
             return t.get('callee') or {'path': t['path'], 'inst': None}
     return None
+
+
+def dominating_edges(inst, b):
+    """Switch edges that dominate block b: [(switch_bb, kind, value, target)].
+    kind 'case' (discriminant == value) or 'otherwise' (value = excluded list).
+    An edge s->t dominates b when t's only predecessor is s and t dominates b."""
+    out = []
+    for sb in inst.rpo():
+        t = inst.term(sb)
+        if t['k'] != 'switch':
+            continue
+        tgts = {}
+        for v, tt in t['cases']:
+            tgts.setdefault(tt, []).append(('case', v))
+        tgts.setdefault(t['otherwise'], []).append(('otherwise', [v for v, _ in t['cases']]))
+        for tt, kinds in tgts.items():
+            if len(kinds) != 1:
+                continue
+            if inst.pred(tt) == [sb] and inst.dominates(tt, b) and tt in inst.succ(sb):
+                out.append((sb, kinds[0][0], kinds[0][1], tt))
+    return out
+
+
+def edge_truth(kind, value):
+    """For a boolean switch: is this the 'true' edge?  (case 0 => false edge;
+    otherwise-excluding-0 => true edge; case 1 => true edge)"""
+    if kind == 'case':
+        return value != 0
+    return 0 in value
+
+
+def bool_condition(inst, sb):
+    """Describe the boolean switched on in block sb: traces the operand to
+    ('cmp', op, a_operand, b_operand, defining_inst_block) | ('call', term) | ('not', inner) | None"""
+    t = inst.term(sb)
+    return _cond_of(inst, t['op'], 0)
+
+
+def _cond_of(inst, o, depth):
+    if depth > 6:
+        return None
+    if o['k'] not in ('copy', 'move') or o['p']['pr']:
+        return ('opaque', o)
+    l = o['p']['l']
+    defs = inst.assignments_to(l)
+    if len(defs) != 1:
+        return ('multi', l)
+    b, i, d = defs[0]
+    if i == 'term':
+        return ('call', d)
+    rv = d
+    if rv['k'] == 'bin' and rv['op'] in ('Lt', 'Le', 'Gt', 'Ge', 'Eq', 'Ne'):
+        return ('cmp', rv['op'], rv['a'], rv['b'])
+    if rv['k'] == 'un' and rv['op'] == 'Not':
+        inner = _cond_of(inst, rv['a'], depth + 1)
+        return ('not', inner)
+    if rv['k'] == 'use':
+        return _cond_of(inst, rv['op'], depth + 1)
+    return ('rv', rv)
